@@ -161,6 +161,9 @@ def make_judges(ctx):
         lsb = R.lsb(res.n_frac)
         rlo, rhi = R.code_range(res.signed, res.n_word)
         bad = None
+        if cname == 'clip' and any((e / lsb).denominator != 1 or not (rlo <= e / lsb <= rhi) for e in expf):
+            ctx.skip('red:clip with a bound that the result format cannot represent (the clipped value is then quantized, not exact)')
+            return
         if tuple(res.shape) != tuple(shape):
             bad = 'shape %r, expected %r' % (res.shape, shape)
         else:
